@@ -7,6 +7,20 @@ from .C09 import dead_blocks, first_cond_branch, depends_on
 from . import C04
 
 
+def _canon_product(e):
+    """`(a*b)` and `(b*a)` are the same offset expression: the factors of a top-level product are sorted"""
+    t = e.strip()
+    while t.startswith('(') and t.endswith(')') and t.count('(') == t.count(')') and '(' not in t[1:-1].split(')')[0][:0]:
+        inner = t[1:-1]
+        if inner.count('(') != inner.count(')'):
+            break
+        t = inner
+        break
+    if '*' in t and '(' not in t:
+        return '(' + '*'.join(sorted(x.strip() for x in t.split('*'))) + ')'
+    return e
+
+
 def run(ctx, rep):
     P = ctx.prog
     rep.explanation = ('What is written at a position is read back through the same map: parity_read and parity_write compute the same offset expression and both resolve (file, offset) only through '
@@ -21,7 +35,7 @@ def run(ctx, rep):
         f = P.fn(name)
         rep.analysed(f)
         st = [i for i in f.all_insts() if i.op == 'store' and f.expr(i.ops[1]) == '&offset']
-        offs[name] = sorted(f.expr(i.ops[0]) for i in st)
+        offs[name] = sorted(_canon_product(f.expr(i.ops[0])) for i in st)
         find = list(f.calls('parity_split_find'))
         io_ = list(f.calls({'pread', 'pwrite'}))
         ok = len(st) == 1 and len(find) == 1 and f.expr(find[0].ops[1]) == '&offset' and f.dominates(st[0], find[0]) and bool(io_) and all(f.dominates(find[0], c) and f.xexpr(c.ops[0]) == 'split->f' for c in io_)
